@@ -56,6 +56,7 @@ def specOp (_op : String) (_a : List Int) : Option (Option String) := none
 def runEnum (name : String) (_args : List String) (out : IO.FS.Stream) : Option (IO Unit) :=
   match name with
   | "c04.years.spec" => some (enumYears out)
+  | "c04.years.hist.spec" => some (enumYears out)   -- the answers after a history of unusual calls are the same answers
   | _ => none
 
 end Tyme.Driver.P04
